@@ -141,6 +141,29 @@ def outputs_of(w, net, account, tag=""):
         out["node.public_key.address(testnet=node.testnet)"] = [k0.public_key.address(testnet=k0.testnet), k0.public_key.address(testnet=k0.testnet, addr_type="p2wpkh")]
         out["child-of-child keys"] = [k0.ckd(1).extended_public_key(), k0.ckd(H + 1).extended_private_key()]
         return out
+    def cloned():
+        """duplicates of the wallet and of its nodes keep their network"""
+        from .. import hdscen
+        from btc_hd_wallet.base_wallet import BaseWallet
+        out = {}
+        for how, w2 in hdscen.clones(w):
+            n2 = w2.by_path("m/84'/%d'/0'/0/1" % coin)
+            out["%s(wallet)" % how] = [w2.p2wpkh_address(n2), w2.p2pkh_address(n2), n2.extended_public_key(), n2.extended_private_key(),
+                                       json.loads(w2.wasabi_json())["ExtPubKey"], w2.master.extended_private_key()]
+        acct = w.by_path("m/49'/%d'/2'" % coin)
+        for how, c in hdscen.clones(acct):
+            out["%s(node)" % how] = [c.extended_public_key(), c.extended_private_key(), c.ckd(0).extended_public_key(), c.private_key.wif(testnet=c.testnet)]
+        for how, m2 in hdscen.clones(w.master):
+            w3 = BaseWallet(master=m2, testnet=w.testnet)
+            n3 = w3.by_path("m/44'/%d'/0'/0/0" % coin)
+            out["wallet-over-%s(master)" % how] = [w3.p2pkh_address(n3), n3.extended_public_key(), w3.node_extended_keys(n3)["pub"], w3.node_extended_keys(n3)["prv"]]
+        return out
+    st, extra2 = attempt(cloned)
+    if st != "ok":
+        viols.append(V(P + ":clones:raised", "%s" % extra2))
+    else:
+        for what, vals in extra2.items():
+            add(vals, what, len(vals))
     st, extra = attempt(more)
     if st != "ok":
         viols.append(V(P + ":generators-and-groups:raised", "%s" % extra))
